@@ -75,6 +75,8 @@ def cases(ctx):
         q["out"] = [r.random() < 0.3 for _ in q["out"]]
         for inputs in (False, True):
             yield {"op": "remove_unloaded", "c": q, "inputs": inputs, "src": "DAG5"}
+    if not ctx.quick and ctx.hashseed == 0:
+        yield {"op": "remove_unloaded", "c": deep_chain(1100), "inputs": False, "src": "DEEP"}     # deeper than Python's recursion limit
     for j in range(150 if ctx.quick else 3000):
         r = ctx.rng("C16g3", j)
         c = gen.rand_circuit(r, n_in=r.randint(1, 4), n_gates=r.randint(2, 9), max_fanin=3, out_is_input=0.3, loaded_in_out=0.15)
@@ -88,8 +90,24 @@ def cases(ctx):
             yield {"op": "remove_unloaded", "c": p, "inputs": True, "src": "G3"}
 
 
+def deep_chain(n):
+    import networkx as nx
+    from ..proj import proj_graph
+
+    g = nx.DiGraph()
+    g.add_node("a", type="input", output=False)
+    g.add_node("o", type="buf", output=True)
+    g.add_edge("a", "o")
+    prev = "a"
+    for k in range(n):
+        g.add_node("d%d" % k, type="not", output=False)
+        g.add_edge(prev, "d%d" % k)
+        prev = "d%d" % k
+    return proj_graph(g, "deep")
+
+
 def run_case(case, ctx):
-    c = build(case["c"])
+    c = build(case["c"], case.get("ord"))
     ev = {"kind": "remove_unloaded", "c": case["c"], "inputs": case["inputs"], "exc": "", "post": {}, "ret": [], "post2": {}, "ret2": []}
     try:
         ret = c.remove_unloaded(inputs=case["inputs"])
